@@ -29,6 +29,9 @@ var handCorpus = []string{"a==1", "a == 1", "a == 1 and b == 2", "not a == 1", "
 	"a==1 and b==2 and c==3", "a==1 or b==2 or c==3", "a==1 and b==2 or c==3 and d==4", "not a==1 and not b==2", "(a==1 or b==2) and c==3", "a==1 and (b==2 or c==3)",
 	strings.Repeat("(", 6) + "a==1" + strings.Repeat(")", 6), strings.Repeat("(", 7) + "foo == 3" + strings.Repeat(")", 7), "a matches `(`", "b.c matches \"[z-a]\"", "m.k not matches `a{2,1}`", "l.0 matches `*x`", "any l as x { x matches `(` }", strings.Repeat("not ", 5) + "a==1", "a == " + strings.Repeat("9", 40), "a == 1.", "a == .5", "a == -", "a == 1e3", "a == +1",
 	`foo == "-"`, "foo != `-`", `"-" in foo`, `"+" not in foo`, `any foo as x { x == "-" }`, `a == "."`, `a == "e"`, `a == "0x"`, `a == "_"`, `a == "-."`, `a == "+."`, `a == "-0x"`, `a == "1e"`, `a == "1e+"`, `a == "Inf"`, `a == "nan"`, `a == " "`, `a == "-_"`,
+	"ids.9223372036854775807 == 1", "ids.9223372036854775808 == 1", "ids.20260101093000123456 == 1", "x == ids.18446744073709551616", "1 in ids.99999999999999999999", "any ids.9223372036854775808 as v { v == 1 }", "a.00000000000000000000001 == 1",
+	"a == 1 and b == 2 and c == 3 and d == 4 and e == 5 and f == 6 and g == 7 and h == 8 and i == 9 and j == 10 and k == 11 and l == 12 and m == 13 and n == 14 and o == 15 and p == 16 and q == 17 and r == 18 and s == 19",
+	`(X == "\\") or (Y == "\\")`, "(X == `a\\`) and (Y == `b\\`)", `(X == "\\") or Z == 1 or (Y == "C:\\d\\")`, `(a == "(") or (b == ")")`, `(a == ")") and (b == "(")`, "(a == `)`) or (b == `(`)",
 	`foo contains "-"`, `a == "0b"`, `a == "0o"`, `a == "--"`, `a == "+-"`, "a == `+`", `a["-"] == 1`, `a["+"] == "+"`, `"/-" == 1`, `"/+" == "-"`}
 
 var gSels = []string{"a", "b.c", `m["k"]`, `"/x/y"`, "l.0", "foo.bar.baz", "m[`r`]", `"/p~1q"`}
@@ -234,9 +237,21 @@ func verdictOf(obs string) string {
 // C15: the real parser against the reference (the engine model run on the table read from grammar.peg).
 func runC15(r *Run) {
 	r.Rule = "hand corpus + every 1- and 2-token sequence of a 40-token alphabet with and without blanks (thorough: also every 3-token sequence) + random token sequences + grammar derivations + rendered random trees + token mutations + malformed bytes; non-trivial = distinct string; compared: verdict, tree and step count of grammar.Parse vs the engine model on the table read from grammar.peg"
+	nth := 0
 	parserCorpus(r.Tier, r.Seed, func(stream, s string) {
 		if r.Distinct[s] > 0 {
 			return
+		}
+		nth++
+		if nth%25 == 0 {
+			// other callers use the parser with options in between: a budget that runs out, a budget that suffices, invalid UTF-8 allowed
+			func() {
+				defer func() { recover() }()
+				grammar.Parse("", []byte("a == 1 and b == 2"), grammar.MaxExpressions(uint64(5+nth%700)))
+				grammar.Parse("", []byte("a == \"\xff\""), grammar.AllowInvalidUTF8(true))
+				grammar.Parse("x", []byte("a =="), grammar.MaxExpressions(1000), grammar.Recover(true))
+				bexpr.CreateEvaluator("a == 1", bexpr.WithMaxExpressions(1000))
+			}()
 		}
 		o := parseObs([]byte(s), 0)
 		r.Evaluations++
@@ -389,6 +404,7 @@ func runC10(r *Run) {
 			r.Sample(map[string]interface{}{"input": s, "stream": stream, "accepted": ev != nil})
 		}
 	}
+	c10BudgetedFaults(r)
 	parserCorpus(r.Tier, r.Seed, check)
 	extra := corpusSizes(r.Tier).malformed * 2
 	for i := 0; i < extra; i++ {
@@ -439,6 +455,15 @@ func runC11(r *Run) {
 	for d := 1; d <= maxd; d++ {
 		inputs = append(inputs, strings.Repeat("(", d)+"a==1"+strings.Repeat(")", d))
 		inputs = append(inputs, strings.Repeat("( ", d)+"a == 1 and b == 2"+strings.Repeat(" )", d))
+	}
+	for _, k := range []int{9, 10, 11, 14} { // many distinct recorded errors before the end of the input
+		var t1, t2, t3 []string
+		for i := 0; i < k; i++ {
+			t1 = append(t1, fmt.Sprintf(`f%d == "\q"`, i))
+			t2 = append(t2, fmt.Sprintf(`"/f%d~2" == 1`, i))
+			t3 = append(t3, fmt.Sprintf("f%d == %dx", i, i))
+		}
+		inputs = append(inputs, strings.Join(t1, " and "), strings.Join(t2, " or "), strings.Join(t3, " and "))
 	}
 	for _, deco := range decorations {
 		inputs = append(inputs, deco+"a == 1", deco+"a ==", deco+strings.Repeat("(", maxd)+"a == 1"+strings.Repeat(")", maxd), "a == 1"+deco)
